@@ -312,6 +312,21 @@ def impl_run(case):
             ob = W.guarded(lambda: quantity.Quantity('1 ' + s))
             ps.append(ob['cls'] if ob['k'] == 'qty' else ob.get('e'))
         res = {'k': 'dir', 'us': us, 'cs': cs, 'parse': ps}
+    elif q['k'] == 'scales':
+        out = []
+        for s in q['syms']:
+            u = im.units.get(s)
+            sc = None
+            if u is not None:
+                cls = u.qty_cls
+                if cls.ref_unit is not None and cls.quantum is None:
+                    try:
+                        e = cls(1, u).equiv_amount(cls.ref_unit)
+                        sc = None if e is None else W._num(e)
+                    except BaseException:     # noqa: a unit without scale in such a type
+                        sc = None
+            out.append(sc)
+        res = {'k': 'scales', 'v': out}
     elif q['k'] == 'rate':
         from .qtyops import _num
 
@@ -462,6 +477,8 @@ def coq_robs(ids, o):
         if o.get('float'):
             return "(RO OFloat)"
         return f"(RPair {cq(F(o['f']))} {copt(o['u'], lambda s: cn(ids.s(s)))})"
+    if k == 'scales':
+        return "(RScales " + clist([copt(v, lambda x: cq(F(x))) for v in o['v']]) + ")"
     if k == 'dir':
         us = clist(['None' if u is None else
                     f"(Some ({cn(ids.s(u[0]))}, {cn(ids.c(u[1]))}))" for u in o['us']])
@@ -494,6 +511,8 @@ def coq_case(case, r):
     elif q['k'] == 'dir':
         qt = (f"(QDir {clist([cn(ids.s(s)) for s in q['syms']])} "
               f"{clist([cn(ids.c(c)) for c in q['clss']])})")
+    elif q['k'] == 'scales':
+        qt = f"(QScales {clist([cn(ids.s(s)) for s in q['syms']])})"
     elif q['k'] == 'rate':
         ru, mult, rt, amt = q['r']
         x = q['x']
